@@ -363,11 +363,11 @@ func (p *Peer) Send(frames ...Frame) error {
 func (p *Peer) SendRaw(b []byte) error {
 	p.conn.SetWriteDeadline(time.Now().Add(20 * time.Second))
 	if len(p.Fragment) > 0 {
-		// the first 600 bytes of every send go out in pieces of the given sizes (cyclically) with a
+		// the first 160 bytes of every send go out in pieces of the given sizes (cyclically) with a
 		// pause after each, the way TCP may segment a message at any byte
 		sent, limit := 0, len(b)
-		if limit > 600 {
-			limit = 600
+		if limit > 160 {
+			limit = 160
 		}
 		for i := 0; sent < limit; i++ {
 			n := p.Fragment[i%len(p.Fragment)]
@@ -381,7 +381,7 @@ func (p *Peer) SendRaw(b []byte) error {
 				return err
 			}
 			sent += n
-			time.Sleep(300 * time.Microsecond)
+			time.Sleep(150 * time.Microsecond)
 		}
 		b = b[sent:]
 		if len(b) == 0 {
